@@ -45,10 +45,34 @@ func (m *Machine) newFileValue(fr *frame, name string) Value {
 	return p
 }
 
+// fsAdversaryPoint: the environment (another process) may create the watched path, once, just
+// before any file system operation of the code under analysis — provided the path does not
+// exist at that moment (an exclusive create by the other process). Each possibility is a
+// fork of the path.
+func (m *Machine) fsAdversaryPoint() {
+	if m.advPath == "" || m.advActed {
+		return
+	}
+	g := m.ghost(m.advPath)
+	if g.kind != 0 {
+		return
+	}
+	if m.decideN("fs-adversary", 2, nil) == 1 {
+		g.kind = 2
+		g.gen++
+		m.advActed = true
+		m.advGen = g.gen
+		m.schedUsed = true // natively a matter of timing: replayed in the stress loop
+		m.fsLog = append(m.fsLog, "another process creates "+m.advPath)
+		m.addSite(m.repoSite(token.NoPos))
+	}
+}
+
 func (m *Machine) osOpenFile(fr *frame, name Str, flag *Term) Value {
 	if !name.IsConcrete() {
 		unsupportedf("os.OpenFile with symbolic path")
 	}
+	m.fsAdversaryPoint()
 	path := name.Concrete()
 	g := m.ghost(path)
 	bit := func(b uint64) bool {
@@ -107,6 +131,7 @@ func (p *Program) installOS() {
 	}
 	in["os.CreateTemp"] = func(fr *frame, a []Value) Value {
 		m := fr.m
+		m.fsAdversaryPoint()
 		m.tempSeq++
 		path := fmt.Sprintf("/ghost/tmp/%d_%s", m.tempSeq, a[1].(Str).Concrete())
 		g := m.ghost(path)
@@ -117,6 +142,7 @@ func (p *Program) installOS() {
 	statFn := func(follow bool) intrinsicFn {
 		return func(fr *frame, a []Value) Value {
 			m := fr.m
+			m.fsAdversaryPoint()
 			path := a[0].(Str).Concrete()
 			g := m.ghost(path)
 			if g.kind == 0 || (follow && g.kind == 4) {
@@ -128,8 +154,31 @@ func (p *Program) installOS() {
 	}
 	in["os.Stat"] = statFn(true)
 	in["os.Lstat"] = statFn(false)
+	in["os.Rename"] = func(fr *frame, a []Value) Value {
+		m := fr.m
+		m.fsAdversaryPoint()
+		from, to := a[0].(Str).Concrete(), a[1].(Str).Concrete()
+		src, dst := m.ghost(from), m.ghost(to)
+		if src.kind == 0 {
+			return m.mkError("rename " + from + " " + to + ": no such file or directory")
+		}
+		if from == to {
+			return Iface{}
+		}
+		// rename(2) replaces an existing destination atomically
+		dst.kind = src.kind
+		dst.gen++
+		src.kind = 0
+		src.gen++
+		m.fsLog = append(m.fsLog, "rename "+from+" -> "+to)
+		if sp := m.P.byPath["go.etcd.io/bbolt"]; sp != nil && sp.Func("ModelRename") != nil {
+			m.call(fr, token.NoPos, sp.Func("ModelRename"), []Value{MkStr(from), MkStr(to)})
+		}
+		return Iface{}
+	}
 	in["os.Remove"] = func(fr *frame, a []Value) Value {
 		m := fr.m
+		m.fsAdversaryPoint()
 		path := a[0].(Str).Concrete()
 		g := m.ghost(path)
 		if g.kind == 0 {
@@ -255,6 +304,24 @@ func (p *Program) installVerifModels() {
 		g.kind = fr.m.concreteInt(a[1], "file kind")
 		g.gen++
 		return nil
+	}
+	// the environment as an adversary: see fsAdversaryPoint
+	v["verifFsAdversary"] = func(fr *frame, a []Value) Value {
+		m := fr.m
+		m.advPath = a[0].(Str).Concrete()
+		m.advActed = false
+		m.noteOnce("environment: another process may create the watched path (exclusive create, fixed content) before any file system operation of the code under analysis, at most once")
+		return nil
+	}
+	v["verifFsAdversaryStop"] = func(fr *frame, a []Value) Value {
+		m := fr.m
+		m.fsAdversaryPoint() // or just after the last operation
+		m.advPath = ""
+		return KB(m.advActed)
+	}
+	v["verifFileIsForeign"] = func(fr *frame, a []Value) Value {
+		g := fr.m.ghost(a[0].(Str).Concrete())
+		return KB(fr.m.advActed && g.kind == 2 && g.gen == fr.m.advGen)
 	}
 	callModel := func(fr *frame, name string, args ...Value) Value {
 		sp := fr.m.P.byPath["go.etcd.io/bbolt"]
